@@ -27,7 +27,7 @@ theorem roundDim_nat (n : Nat) : roundDim (n : Rat) = n := by
   simp only [roundDim, h]
   have h0 : absQ ((n : Rat) - ((n : Int) : Rat)) = 0 := by simp [absQ]
   rw [h0]
-  have : ¬ ((0 : Rat) > 1 / 100000000) := by norm_num
+  have : ¬ ((0 : Rat) > eps8) := by unfold eps8; decide +kernel
   rw [if_neg this]; exact h
 
 variable {x0 y0 x1 y1 : Rat} {h w : Nat}
